@@ -100,6 +100,14 @@ def duration_lower_bound(body, op):
 
 def check(ctx):
     prog = ctx.prog
+    # mechanisms this property depends on, decided by the rules of the properties that own them:
+    #  "success is reported only when the new certificate and key have been installed" -> the request-certificate traces (C02/C03)
+    #  "the post-operation hooks run exactly once per attempt" -> every configured hook of that type reaches the certificate (C10.R3)
+    from .request_model import request_traces as _rtr, store_rule as _store_rule
+    if _rtr(prog) is not None:
+        _store_rule(ctx, ctx.rule("S1", "[shared with C02/C03] key and certificate are installed on every successful attempt, after validation"), _rtr(prog))
+    from . import c10 as _c10
+    ctx.shared("C10", _c10.order_rules)
     cargo = tomllib.load(open(os.path.join(ctx.repo, "Cargo.toml"), "rb"))
     ctx.notes.append("release profile panic = %s" % cargo.get("profile", {}).get("release", {}).get("panic", "unwind"))
     R1 = ctx.rule("R1", "every panic source reachable from MainEventLoop::run is discharged (A1-A5) or allow-listed with a reason; a new one is a violation")
